@@ -141,6 +141,11 @@ def run(chk):
     chk.explanation = ("io.circuit_to_verilog and the reader are evaluated from source by the checker's evaluator on model circuits in both styles; the text is parsed with the grammar-as-data driver; "
                        "name / io sets / blackbox pins / function (exhaustive simulation) / graph identity are compared; to_file/from_file through an in-memory file model.")
     chk.assume("the C02 driver reproduces lark.Transformer; the in-memory file model stands in for open()/Path")
+    from ..core import type_vocabulary
+    from ..structural import dispatch_rule, vocabulary_rule
+
+    vocabulary_rule(chk, repo, "C03.S.vocabulary", [(FILE, "circuit_to_verilog")])
+    dispatch_rule(chk, repo, "C03.S.dispatch", FILE, "circuit_to_verilog", set(type_vocabulary(repo)["supported_types"]), min_branches=3)
     P = Package(repo)
     fw = repo.func(FILE, "circuit_to_verilog")
     n = 0
